@@ -338,6 +338,7 @@ var sampleTexts = []string{
 	"x",
 	"Zwölf Boxkämpfer jagen Viktor",
 	"abc שלום עולם def 123", // bidi: a right-to-left run inside left-to-right text
+	"שלום עולם", // right-to-left only
 }
 
 var vocabulary = []string{"a", "in", "of", "the", "and", "to", "it", "was", "fountain", "golden", "forest", "favorite", "princess", "extraordinarily", "that", "when", "high", "day", "took", "close",
@@ -399,6 +400,9 @@ func genTextStep(r *simrt.Rand, nfonts int, colW float64) Step {
 		}
 		st.Height = []float64{0, 30}[r.Intn(2)]
 	}
+	if r.Bool(0.25) {
+		st.SharedFace = 1 + r.Intn(3)
+	}
 	return st
 }
 
@@ -443,6 +447,9 @@ func genDrawing(r *simrt.Rand, l latticeCfg, nfonts int) *Drawing {
 			it.Text = sampleTexts[r.Intn(len(sampleTexts))]
 			it.Deco = r.Intn(8)
 			it.Style = r.Intn(4)
+			if r.Bool(0.3) {
+				it.SharedFace = 1 + r.Intn(3)
+			}
 		} else {
 			it.Kind = "path"
 			it.Shape = genShape(r, l)
